@@ -1,6 +1,7 @@
 package main
 
 import (
+	"sort"
 	"fmt"
 	"go/token"
 	"go/types"
@@ -312,7 +313,26 @@ func (x *Exec) refOf(st *State, p *PtrV) *Term {
 
 func (x *Exec) newRef(st *State) *Term {
 	st.top = mkAdd(st.top, mkInt(1))
+	// ghosts declared `initzero`: a new object starts with the zero ghost value
+	for _, name := range x.initZeroGhosts() {
+		g := x.sp.Ghosts[name]
+		h := st.getHeap("G|"+g.Name, x.ghostHeapSort(g))
+		x.assumeIn(st, mkEq(mkSelect(h, st.top), mkInt(0)))
+	}
 	return st.top
+}
+
+func (x *Exec) initZeroGhosts() []string {
+	if x.izGhosts == nil {
+		x.izGhosts = []string{}
+		for n, g := range x.sp.Ghosts {
+			if g.InitZero && len(g.Params) == 1 {
+				x.izGhosts = append(x.izGhosts, n)
+			}
+		}
+		sort.Strings(x.izGhosts)
+	}
+	return x.izGhosts
 }
 
 func (x *Exec) zeroArray(st *State, et types.Type, arr *Term) {
